@@ -367,6 +367,9 @@ def async_proxy(pure=False, sync_fn=None, asyncio_fn=None, allow_sync_call=False
 
     def decorate(fn):
         if pure:
+            # Mark the function (like lazy() does) so that is_pure_async_fn(), is_async_fn(),
+            # get_async_fn() and async_call() recognise it.
+            getattr(fn, "__func__", fn).is_pure_async_fn = core_helpers.true_fn
             return fn
         if sync_fn is None:
             return qcore.decorators.decorate(AsyncProxyDecorator, asyncio_fn)(fn)
